@@ -85,10 +85,10 @@ var errnosFor = map[string][]syscall.Errno{
 var c15Counter int
 
 type c15Case struct {
-	SemanticFail bool `json:"semantic_fail"`
-	Default uint      `json:"default"`
-	Pre     []preUser `json:"pre"`
-	Op      Op        `json:"op"`
+	SemanticFail bool      `json:"semantic_fail"`
+	Default      uint      `json:"default"`
+	Pre          []preUser `json:"pre"`
+	Op           Op        `json:"op"`
 }
 
 func genC15(t *rapid.T) c15Case {
